@@ -112,10 +112,11 @@ prop(
     level="other",
     explanation=(
         "Decided per stage, because parsing a whole datagram of arbitrary bytes is not tractable (C07). "
-        "(1) Dispatcher: well-formed datagrams [INFO_TS(invalidate), HEARTBEAT] and [INFO_TS, INFO_SRC, PAD] with symbolic field values "
-        "go through the real parser RtpsMessageRead::try_from and the real MessageReceiver until exhaustion - the pair "
-        "DcpsDomainParticipant::handle_data runs on every datagram: no panic, exactly the entity submessage is yielded, the "
-        "interpreter state (source prefix, timestamp) is the one the submessages carry. "
+        "(1) Dispatcher: a 28-byte datagram with an INFO_REPLY submessage goes through the real parser "
+        "RtpsMessageRead::try_from and the real MessageReceiver::next - the pair DcpsDomainParticipant::handle_data runs on "
+        "every datagram - and reaches todo!() (KF-C06-1). The sibling obligation (multi-submessage datagrams without "
+        "INFO_REPLY: no panic, exactly the entity submessage yielded, interpreter state as carried) is written but did "
+        "NOT finish within 900 s (thorough tier, undecided). "
         "(3) Fragment arithmetic: RtpsWriterProxy::push_data_frag + reconstruct_data_from_frag (total_fragments_expected) - "
         "the two calls RtpsStatefulReader::on_data_frag_submessage makes for an accepted fragment - for one DATA_FRAG with "
         "symbolic writerSN, fragmentStartingNum, fragmentsInSubmessage <= 1, fragmentSize >= 1, dataSize: no overflow, no "
@@ -148,7 +149,7 @@ prop(
                "encoder produces these layouts is C08)",
     technique="Kani/CBMC proof harnesses on rtps_messages::overall_structure::RtpsMessageRead, rtps::message_receiver, rtps::writer_proxy (thorough: DcpsDomainParticipant::handle_data)",
     assumptions=[
-        "NOT trigger KF-C06-1 / KF-C06-3 / KF-C06-4 in the respective __rest obligations",
+        "NOT trigger KF-C06-3 / KF-C06-4 in the respective __rest obligations (the __rest sibling of KF-C06-1 is in the thorough tier, undecided)",
         "thorough tier only: critical_section::acquire/release stubbed; RtpsWriterProxy::irrelevant_change_set replaced by a call counter in c06_gap_range_loop__known",
     ],
     timeout={"quick": 900, "thorough": 1800},
